@@ -1,5 +1,153 @@
-(* C05 — placeholder; the theorems are added as BT/*Proofs.v land *)
+(* C05 — Bigtable row filters: the emulator's evaluation (BT/Filter.v) refines the denotational
+   filter semantics (BT/FilterSpec.v, Layer B); invalid filters are rejected up front; regexes match
+   the whole field bytewise.  Only statements here; proofs are in BT/RegexProofs.v and
+   BT/FilterProofs.v. *)
 From Coq Require Import List NArith ZArith Bool.
-From Emu.BT Require Import Types Mutate Server.
-Example C05_model_runs : snd (step nil (mkCall (BGetTable nil) 0%Z nil)) = fail cNotFound.
-Proof. reflexivity. Qed.
+Import ListNotations.
+From Emu.Common Require Import Bytes Str StrProofs.
+From Emu.BT Require Import Types Regex Mutate Filter Server.
+From Emu.BT Require Import RegexProofs FilterSpec CellSpec FilterProofs.
+Local Open Scope Z_scope.
+
+(* ---- regular expressions ---- *)
+(* the matcher decides membership in the language of the pattern: whole field, byte by byte *)
+Theorem C05_regex_matcher_correct : forall r s, re_match r s = true <-> lang r s.
+Proof. exact regex_matcher_correct. Qed.
+Print Assumptions C05_regex_matcher_correct.
+
+Theorem C05_regex_leaf_spec : forall r f q c,
+  (include_cell (FFamilyRegex (RxOk r)) f q c = true <-> lang r f)
+  /\ (include_cell (FQualRegex (RxOk r)) f q c = true <-> lang r q)
+  /\ (include_cell (FValueRegex (RxOk r)) f q c = true <-> lang r (c_val c)).
+Proof. exact regex_leaf_spec. Qed.
+Print Assumptions C05_regex_leaf_spec.
+
+(* ---- validation ---- *)
+Theorem C05_fvalid_spec : forall f, fvalid f = true <-> valid_filter f.
+Proof. exact fvalid_spec. Qed.
+Print Assumptions C05_fvalid_spec.
+
+Theorem C05_invalid_rejected : forall s tbl t f now coins,
+  alookup tbl s = Some t -> fvalid f = false ->
+  (forall keys ranges limit,
+      step s (mkCall (BReadRows tbl keys ranges (Some f) limit) now coins) = (s, fail cInvalidArgument))
+  /\ (forall key tm fm,
+      step s (mkCall (BCheckAndMutate tbl key (Some f) tm fm) now coins) = (s, fail cInvalidArgument)).
+Proof. exact invalid_rejected. Qed.
+Print Assumptions C05_invalid_rejected.
+
+(* ---- range leaves: boundaries ---- *)
+Theorem C05_column_range_spec : forall fam s e f q c,
+  include_cell (FColRange fam s e) f q c = true <-> f = fam /\ lower_in s q /\ upper_in e q.
+Proof. exact column_range_spec. Qed.
+Print Assumptions C05_column_range_spec.
+
+Theorem C05_value_range_spec : forall s e f q c,
+  include_cell (FValueRange s e) f q c = true <-> lower_in s (c_val c) /\ upper_in e (c_val c).
+Proof. exact value_range_spec. Qed.
+Print Assumptions C05_value_range_spec.
+
+(* start inclusive, end exclusive, end 0 = unbounded *)
+Theorem C05_ts_range_spec : forall s e f q c,
+  include_cell (FTsRange s e) f q c = true <-> s <= c_ts c /\ (e = 0 \/ c_ts c < e).
+Proof. exact ts_range_spec. Qed.
+Print Assumptions C05_ts_range_spec.
+
+Theorem C05_sample_all_or_nothing : forall key fs c coins,
+  feval key (FSample true) fs (c :: coins) = (c, fs, coins).
+Proof. exact sample_all_or_nothing. Qed.
+Print Assumptions C05_sample_all_or_nothing.
+
+(* ---- the refinement ----
+   FULL statement (every valid filter):
+     forall f key fs coins, fvalid f = true -> fams_ok fs ->
+       let '(m, fs', coins') := feval key f fs coins in
+       let '(out, scoins) := fsem key f (flatten fs) coins in
+       coins' = scoins /\ (m = true -> flatten fs' = out) /\ (m = false -> out = []).
+   It is false (C05_coins_refuted, C05_cells_refuted).  Proved: the same under the guard
+   [coin_safe f = true] (in every chain, a stage that can report "match" with zero cells — pass, sample,
+   the three limit/offset filters, chains ending in / conditions branching to one — is not followed by
+   a sample filter).  Every filter WITHOUT a sample filter satisfies the guard; interleave is covered
+   at every depth. *)
+Theorem C05_filter_refines_fsem_partial : forall f key fs coins,
+  fvalid f = true -> coin_safe f = true -> fams_ok fs ->
+  let '(m, fs', coins') := feval key f fs coins in
+  let '(out, scoins) := fsem key f (flatten fs) coins in
+  coins' = scoins /\ (m = true -> flatten fs' = out) /\ (m = false -> out = []).
+Proof. exact filter_refines_fsem_partial. Qed.
+Print Assumptions C05_filter_refines_fsem_partial.
+
+Theorem C05_filter_refines_fsem_nosample : forall f key fs coins,
+  fvalid f = true -> uses_coins f = false -> fams_ok fs ->
+  let '(m, fs', coins') := feval key f fs coins in
+  let '(out, scoins) := fsem key f (flatten fs) coins in
+  coins' = coins /\ scoins = coins /\ (m = true -> flatten fs' = out) /\ (m = false -> out = []).
+Proof. exact filter_refines_fsem_nosample. Qed.
+Print Assumptions C05_filter_refines_fsem_nosample.
+
+Theorem C05_no_coins_safe : forall f, uses_coins f = false -> coin_safe f = true.
+Proof. exact no_coins_safe. Qed.
+Print Assumptions C05_no_coins_safe.
+
+(* ReadRows outputs the row (match flag set and something left after scrubbing) iff the
+   specification yields at least one cell *)
+Theorem C05_row_output_iff_partial : forall tf f key fs coins,
+  fvalid f = true -> coin_safe f = true -> fams_ok fs -> all_known tf fs ->
+  let '(m, fs', _) := feval key f fs coins in
+  (m = true /\ scrub_fams tf fs' <> []) <-> fst (fsem key f (flatten fs) coins) <> [].
+Proof. exact row_output_iff_partial. Qed.
+Print Assumptions C05_row_output_iff_partial.
+
+(* the specification never invents a column *)
+Theorem C05_fsem_keys : forall f key l coins x,
+  In x (fst (fsem key f l coins)) -> In (key_of x) (map key_of l).
+Proof. exact fsem_keys. Qed.
+Print Assumptions C05_fsem_keys.
+
+(* witnesses against the unguarded statement *)
+Theorem C05_coins_refuted :
+  exists f key fs coins, fvalid f = true /\ fams_ok fs
+    /\ snd (feval key f fs coins) <> snd (fsem key f (flatten fs) coins).
+Proof. exact filter_refines_fsem_coins_refuted. Qed.
+Print Assumptions C05_coins_refuted.
+
+Theorem C05_cells_refuted :
+  exists f key fs coins, fvalid f = true /\ fams_ok fs
+    /\ fst (fst (feval key f fs coins)) = true
+    /\ flatten (snd (fst (feval key f fs coins))) <> fst (fsem key f (flatten fs) coins).
+Proof. exact filter_refines_fsem_cells_refuted. Qed.
+Print Assumptions C05_cells_refuted.
+
+(* ---- non-vacuity ---- *)
+Example C05_nonvacuous_refinement :
+  fvalid nv_filter = true /\ coin_safe nv_filter = true /\ uses_coins nv_filter = true /\ fams_ok nv_row
+  /\ fst (fst (feval [] nv_filter nv_row [true; false])) = true
+  /\ length (fst (fsem [] nv_filter (flatten nv_row) [true; false])) = 4%nat
+  /\ flatten (snd (fst (feval [] nv_filter nv_row [true; false])))
+     = fst (fsem [] nv_filter (flatten nv_row) [true; false]).
+Proof.
+  destruct filter_refines_nonvacuous as (H1 & H2 & H3 & H4 & _).
+  split; [exact H1|]. split; [exact H2|]. split; [exact H3|]. split; [exact H4|].
+  split; [vm_compute; reflexivity|]. split; vm_compute; reflexivity.
+Qed.
+
+Example C05_nonvacuous_validation :
+  fvalid (FTsRange 1000 2500) = false /\ fvalid (FChain [FPass true]) = false
+  /\ fvalid (FLabel (H 0x015f5f)) = false /\ fvalid (FValueRegex RxBad) = false
+  /\ valid_filter (FCondition (FTsRange 1000 0) (Some (FLabel (H 0x01612d31))) None)
+  /\ step [(H 0x0174, mkTable [] [])] (mkCall (BReadRows (H 0x0174) [] [] (Some (FSample false)) 0) 0 [])
+     = ([(H 0x0174, mkTable [] [])], fail cInvalidArgument).
+Proof.
+  split; [reflexivity|]. split; [reflexivity|]. split; [reflexivity|]. split; [reflexivity|].
+  split; [apply fvalid_spec; reflexivity|reflexivity].
+Qed.
+
+Example C05_nonvacuous_ranges :
+  let c := mkCell 2000 (H 0x0162) [] in
+  include_cell (FTsRange 1000 2000) [] [] c = false          (* end exclusive *)
+  /\ include_cell (FTsRange 2000 0) [] [] c = true           (* start inclusive, 0 = unbounded *)
+  /\ include_cell (FValueRange (BOpen (H 0x0162)) BUnset) [] [] c = false
+  /\ include_cell (FValueRange (BClosed (H 0x0162)) (BClosed (H 0x0162))) [] [] c = true
+  /\ include_cell (FColRange (H 0x0166) (BClosed (H 0x0161)) (BOpen (H 0x0163))) (H 0x0166) (H 0x0163) c = false
+  /\ include_cell (FColRange (H 0x0166) (BClosed (H 0x0161)) (BOpen (H 0x0163))) (H 0x0166) (H 0x016200) c = true.
+Proof. vm_compute. repeat split; reflexivity. Qed.
